@@ -523,6 +523,12 @@ Section Inv.
   Proof. nt_setter. Qed.
   Lemma nt_unlock s s' : neutral s s' -> neutral s (unlock s').
   Proof. apply nt_set_lock. Qed.
+  Lemma nt_set_glog s s' x : neutral s s' -> neutral s (set_glog x s').
+  Proof. nt_setter. Qed.
+  Lemma nt_glog_add s s' e : neutral s s' -> neutral s (glog_add e s').
+  Proof. apply nt_set_glog. Qed.
+  Lemma nt_unlock_on s s' r w ev : neutral s s' -> neutral s (unlock_on r w ev s').
+  Proof. intro H. unfold unlock_on. destruct (locked s'); auto using nt_unlock, nt_glog_add. Qed.
   Lemma nt_set_by_psid s s' b : neutral s s' -> neutral s (set_by_psid b s').
   Proof. intro H. unfold set_by_psid. destruct (bps_id_is (cur s') b); auto using nt_set_cur. Qed.
   Lemma nt_emit s s' o : quiet o = true -> neutral s s' -> neutral s (emit o s').
@@ -695,7 +701,7 @@ Section Inv.
       [ assumption
       | apply Inv_panic
       | apply Inv_decided
-      | peel1 nt_set_hvs | peel1 nt_unlock | peel1 nt_set_lock | peel1 nt_set_cur | peel1 nt_set_pol
+      | peel1 nt_set_hvs | peel1 nt_unlock_on | peel1 nt_glog_add | peel1 nt_unlock | peel1 nt_set_lock | peel1 nt_set_cur | peel1 nt_set_pol
       | peel1 nt_set_timer | peel1 nt_set_commit_round | peel1 nt_set_commit_req | peel1 nt_set_bpm
       | peel1 nt_set_by_psid | peel1 nt_fill_from_cache | peel1 nt_write_lock_wal
       | (eapply Inv_neutral; [ apply nt_emit; [ reflexivity | apply neutral_refl ] | ])
@@ -722,7 +728,7 @@ Section Inv.
       [ apply neutral_refl
       | apply nt_write_lock_wal
       | apply nt_emit; [ reflexivity | ]
-      | apply nt_unlock | apply nt_set_lock | apply nt_set_by_psid
+      | apply nt_unlock_on | apply nt_glog_add | apply nt_unlock | apply nt_set_lock | apply nt_set_by_psid
       | apply nt_set_timer | apply nt_set_cur | apply nt_set_hvs | apply nt_set_pol ].
 
   Ltac crunch IH :=
@@ -798,8 +804,14 @@ Section Inv.
       crunch IH.
     - (* ASendVote *)
       destruct (_ || _); auto.
-      repeat let_step. apply IH; [|exact I]. subst.
-      change (Inv (send3 (own_vote own s t d) s)). apply Inv_send3; auto.
+      repeat let_step. apply IH; [|exact I]. subst s4 s3 s2.
+      change (Inv (send3 s0 s1)). subst s0 s1.
+      assert (N1 : neutral s (glog_add (GVote (round s) t d (lock_of s)) s)) by (apply nt_glog_add, neutral_refl).
+      change (own_vote own s t d) with (own_vote own (glog_add (GVote (round s) t d (lock_of s)) s) t d).
+      apply Inv_send3.
+      + eapply Inv_neutral; eauto.
+      + exact R.
+      + intro U. eapply vote_ok_neutral; [exact N1|]. apply HP. eapply unblown_neutral; eauto.
     - (* ARecvVote *)
       crunch IH.
   Qed.
